@@ -130,7 +130,7 @@ class DefinitionsMapper:
         attrs = [
             cls.build_attr(key, str(DataType.STRING), native=True, default=config[key])
             for key in sorted(config.keys(), key=len)
-            if config[key]
+            if config[key] is not None
         ]
 
         style = config.get("style", "document")
